@@ -59,6 +59,10 @@ def scenario(name):
         pre += ["cnew 0", "cdef 0 s %s %s" % (hx("xs"), hx(b"abcbc")), "cadd 0 - " + hx(rx), "crules 0 0",
                 "buf 3 " + hx(b"xx needle abcx xabac a\x00b\x00c\x00x\x00 bbd")]
         win = ["snew 0 0", "scan s0 mem 3 0 0 -", "scan s0 mem 3 0 0 -", "scan r0 mem 3 0 0 -"]
+    elif name == "compile_save_load":
+        # the whole life of a rule set inside the window: an allocation failure swallowed during compilation must not
+        # surface later as a saved image that misbehaves once the original is gone
+        win = comp + ["rsave 0 0 stream 7", "rload 0 1 stream 3", "rdestroy 0", "cdestroy 0", "scan r1 mem 0 0 0 -", "scan r1 mem 1 0 0 -"]
     elif name == "many_matches":
         # tens of thousands of matches: the match notebook grows page by page during the scan
         pre += ["cnew 0", "cadd 0 - " + hx('rule mm { strings: $a = "ab" $b = /b[a-z]/ condition: #a > 10 and #b > 10 }\n'), "crules 0 0",
@@ -73,7 +77,7 @@ def scenario(name):
     return "\n".join(L) + "\n"
 
 
-SCENARIOS = ["compile_scan", "save_load", "scanner_api", "init_compile_errors", "regex_scan", "many_matches"]
+SCENARIOS = ["compile_scan", "save_load", "scanner_api", "init_compile_errors", "regex_scan", "many_matches", "compile_save_load"]
 
 
 def run_oom(exe, script_text, outdir, kfrom, kto, after, stride, par):
